@@ -270,3 +270,53 @@ func Analyze2(ls []*sdf.Line2, tol float64) Report2 {
 	}
 	return r
 }
+
+// ClosestOnTriangle returns the point of triangle abc closest to p (Ericson,
+// Real-Time Collision Detection 5.1.5).
+func ClosestOnTriangle(p, a, b, c v3.Vec) v3.Vec {
+	ab, ac, ap := b.Sub(a), c.Sub(a), p.Sub(a)
+	d1, d2 := ab.Dot(ap), ac.Dot(ap)
+	if d1 <= 0 && d2 <= 0 {
+		return a
+	}
+	bp := p.Sub(b)
+	d3, d4 := ab.Dot(bp), ac.Dot(bp)
+	if d3 >= 0 && d4 <= d3 {
+		return b
+	}
+	vc := d1*d4 - d3*d2
+	if vc <= 0 && d1 >= 0 && d3 <= 0 {
+		return a.Add(ab.MulScalar(d1 / (d1 - d3)))
+	}
+	cp := p.Sub(c)
+	d5, d6 := ab.Dot(cp), ac.Dot(cp)
+	if d6 >= 0 && d5 <= d6 {
+		return c
+	}
+	vb := d5*d2 - d1*d6
+	if vb <= 0 && d2 >= 0 && d6 <= 0 {
+		return a.Add(ac.MulScalar(d2 / (d2 - d6)))
+	}
+	va := d3*d6 - d5*d4
+	if va <= 0 && (d4-d3) >= 0 && (d5-d6) >= 0 {
+		return b.Add(c.Sub(b).MulScalar((d4 - d3) / ((d4 - d3) + (d5 - d6))))
+	}
+	den := 1 / (va + vb + vc)
+	return a.Add(ab.MulScalar(vb * den)).Add(ac.MulScalar(vc * den))
+}
+
+// WithinOfMesh reports whether some triangle is within d of p (early exit), and
+// otherwise the smallest distance found.
+func WithinOfMesh(p v3.Vec, ts []*sdf.Triangle3, d float64) (bool, float64) {
+	best := math.Inf(1)
+	for _, t := range ts {
+		q := ClosestOnTriangle(p, t[0], t[1], t[2])
+		if l := q.Sub(p).Length(); l < best {
+			best = l
+			if best <= d {
+				return true, best
+			}
+		}
+	}
+	return false, best
+}
